@@ -28,8 +28,8 @@ from lib.core import hyp_run, enumerate_run, HarnessError
 META = dict(
     property="C15",
     level="exploration",
-    technique="generated write schedules over real loopback TCP connections on fresh SelectReactor / PollReactor / EPollReactor / AsyncioSelectorReactor instances with shrunken SO_SNDBUF/SO_RCVBUF, seven close scenarios, order-insensitive event-log oracle plus an idle-state stall probe",
-    level_text="A fixed matrix (4 reactors x 7 close scenarios x 6 traffic shapes) plus Hypothesis schedules per reactor (writes 0..4 MiB in thorough, 0..1 MiB in quick; bursts, writeSequence, delayed writes, receiver pauses). The OS schedules the sockets; only invariants that hold under every schedule are asserted. Sampled; the weakest kind of claim in this suite.",
+    technique="generated write schedules over real loopback TCP connections on fresh SelectReactor / PollReactor / EPollReactor / AsyncioSelectorReactor instances with shrunken SO_SNDBUF/SO_RCVBUF, nine close scenarios, order-insensitive event-log oracle plus an idle-state stall probe",
+    level_text="A fixed matrix (4 reactors x 9 close scenarios x 6 traffic shapes) plus Hypothesis schedules per reactor (writes 0..4 MiB in thorough, 0..1 MiB in quick; bursts, writeSequence, delayed writes, receiver pauses). The OS schedules the sockets; only invariants that hold under every schedule are asserted. Sampled; the weakest kind of claim in this suite.",
     level_note="Trusted: the Linux loopback TCP stack, the event-recording protocols. Timing is not controlled: cases are not bit-for-bit reproducible, the oracle is. Hangs are reported as harness errors, so a defect whose only symptom is a stall is not detected as a violation.",
     design_ref="§5 C15",
     rule="case = (reactor, who sends, socket buffer sizes, write schedule, close scenario, receiver pause, half-close interface flags). non-trivial = the sender wrote more than its (shrunken) socket send buffer in one burst, so user-space buffering and partial writes were needed; distinct by the whole case.",
@@ -37,7 +37,8 @@ META = dict(
 
 REACTORS = ["select", "poll", "epoll", "asyncio"]
 SCENARIOS = ["sender-lose", "sender-half", "sender-abort",
-             "receiver-lose-after-all", "receiver-lose-early", "receiver-abort-early", "duplex-half"]
+             "receiver-lose-after-all", "receiver-lose-early", "receiver-abort-early", "duplex-half",
+             "sender-half-lose", "receiver-echo-lose"]
 SEND_LIMIT = 128 * 1024      # tcp.Connection sends at most this much per doWrite pass
 
 PLEN = 5 * 1024 * 1024
@@ -194,6 +195,10 @@ class _H:
         self.sndbuf_actual = None
         self.n_lost = 0
         self.aborted = set()      # roles that called abortConnection
+        self.closers = set()      # roles that called loseConnection / loseWriteConnection / abortConnection
+        self.lose_called = set()  # roles that called loseConnection
+        self.echoed = 0
+        self.lose_with_output_pending = False
         self.stall = None         # set by the idle probe
         self.probes = 0
         self.queued_behind_aligned = 0
@@ -214,12 +219,13 @@ class _H:
         else:
             if case["rcvbuf"]:
                 sk.setsockopt(socket.SOL_SOCKET, socket.SO_RCVBUF, case["rcvbuf"])
-            if case["scenario"] in ("receiver-lose-early", "receiver-abort-early", "receiver-lose-after-all"):
+            if case["scenario"] in ("receiver-lose-early", "receiver-abort-early", "receiver-lose-after-all",
+                                    "receiver-echo-lose"):
                 self.maybe_receiver_close(p)
             if case["scenario"] == "duplex-half":
                 # the receiver has a stream of its own: queue it all, then finish its sending direction
                 self.write_reply(p)
-                p.transport.loseWriteConnection()
+                self.half(p)
 
     def run_steps(self):
         p = self.protos["sender"]
@@ -251,9 +257,17 @@ class _H:
         self.schedule_done = True
         sc = self.case["scenario"]
         if sc == "sender-lose":
-            p.transport.loseConnection()
+            self.lose(p)
         elif sc in ("sender-half", "duplex-half"):
-            p.transport.loseWriteConnection()
+            self.half(p)
+        elif sc == "sender-half-lose":
+            # half-close requested, then a full close before (or after) the half-close has happened
+            self.half(p)
+            d = self.case["abort_delay"]
+            if d < 0:
+                self.lose(p)
+            else:
+                self.reactor.callLater(d / 1000.0, self.half_then_lose)
         elif sc == "sender-abort":
             d = self.case["abort_delay"]
             if d < 0:
@@ -269,6 +283,13 @@ class _H:
                 self.paused_once = True
                 p.transport.pauseProducing()
                 self.reactor.callLater(case["rx_pause"][1] / 1000.0, self.rx_resume)
+            if case["scenario"] == "receiver-echo-lose" and not self.closed_by_receiver:
+                # acknowledge every delivery with a few bytes; they are flushed by a later
+                # doWrite, so output is usually pending when the next delivery arrives
+                n = min(case.get("echo", 3), len(self.pat[1]) - self.reply_written)
+                p.transport.write(self.pat[1][self.reply_written:self.reply_written + n])
+                self.reply_written += n
+                self.echoed += 1
             self.maybe_receiver_close(p)
 
     def rx_resume(self):
@@ -282,10 +303,12 @@ class _H:
         sc = self.case["scenario"]
         if sc == "receiver-lose-after-all" and p.log.got >= self.total:
             self.closed_by_receiver = True
-            p.transport.loseConnection()
-        elif sc == "receiver-lose-early" and p.log.got >= min(self.case["early"], self.total):
+            self.lose(p)
+        elif sc in ("receiver-lose-early", "receiver-echo-lose") and p.log.got >= min(self.case["early"], self.total):
             self.closed_by_receiver = True
-            p.transport.loseConnection()
+            if self.reply_written > self.logs["sender"].got:
+                self.lose_with_output_pending = True
+            self.lose(p)
         elif sc == "receiver-abort-early" and p.log.got >= min(self.case["early"], self.total):
             self.closed_by_receiver = True
             self.abort("receiver")
@@ -294,7 +317,24 @@ class _H:
         p = self.protos.get(role)
         if p is not None and not p.log.lost:
             self.aborted.add(role)
+            self.closers.add(role)
             p.transport.abortConnection()
+
+    def lose(self, p):
+        if not p.log.lost:
+            self.closers.add(p.role)
+            self.lose_called.add(p.role)
+            p.transport.loseConnection()
+
+    def half(self, p):
+        if not p.log.lost:
+            self.closers.add(p.role)
+            p.transport.loseWriteConnection()
+
+    def half_then_lose(self):
+        p = self.protos.get("sender")
+        if p is not None:
+            self.lose(p)
 
     def note_alignment(self, t):
         """Bookkeeping only (never part of the oracle): is this write queued behind an
@@ -314,25 +354,32 @@ class _H:
 
     def on_read_closed(self, p):
         """IHalfCloseableProtocol.readConnectionLost."""
+        peer = "receiver" if p.role == "sender" else "sender"
+        if peer not in self.closers and not self.logs[peer].lost and self.stall is None:
+            # readConnectionLost means "the peer's FIN was read"; the peer has neither
+            # closed anything nor lost its connection
+            self.stall = dict(kind="spurious-rcl", role=p.role)
+            self.reactor.stop()
+            return
         if self.case["scenario"] == "duplex-half":
             # nothing is written or closed here: whatever this side still has queued must
             # go out by itself.  Close only when both directions are finished.
             if p.log.wcl:
-                p.transport.loseConnection()
+                self.lose(p)
             return
         if p.role == "receiver":
             # the peer finished sending.  After a half-close it still listens: answer, then close
             if self.case["scenario"] == "sender-half":
                 self.write_reply(p)
-            p.transport.loseConnection()
+            self.lose(p)
         else:
             # sender: both directions are finished now
-            p.transport.loseConnection()
+            self.lose(p)
 
     def on_write_closed(self, p):
         """IHalfCloseableProtocol.writeConnectionLost."""
         if self.case["scenario"] == "duplex-half" and p.log.rcl and not p.log.lost:
-            p.transport.loseConnection()
+            self.lose(p)
 
     # -- idle probe: a stall is a *state*, not a duration -----------------------
     def probe(self):
@@ -348,6 +395,20 @@ class _H:
             return
         self.probes += 1
         S, R = self.protos.get("sender"), self.protos.get("receiver")
+        for x in (S, R):
+            # A transport whose application called loseConnection (no abort, no
+            # producers in this harness) stays a registered writer until the close
+            # completes.  Neither reader nor writer and still not lost = nothing
+            # can ever finish the close.
+            if x is not None and not x.log.lost and x.role in self.lose_called and x.role not in self.aborted:
+                try:
+                    idle = x.transport not in self.reactor.getWriters() and x.transport not in self.reactor.getReaders()
+                except AttributeError:
+                    idle = False
+                if idle:
+                    self.stall = dict(kind="close-limbo", role=x.role)
+                    self.reactor.stop()
+                    return
         if S is not None and R is not None and not S.log.lost and not R.log.lost:
             for w, r, wrote, ready in ((S, R, self.written, self.schedule_done),
                                        (R, S, self.reply_written, True)):
@@ -362,7 +423,7 @@ class _H:
                 except (OSError, AttributeError):
                     continue
                 if outq == 0 and inq == 0:
-                    self.stall = dict(writer=w.role, written=wrote, received=r.log.got)
+                    self.stall = dict(kind="no-writer", writer=w.role, written=wrote, received=r.log.got)
                     self.reactor.stop()
                     return
         self.reactor.callLater(0.004, self.probe)
@@ -440,6 +501,14 @@ class _H:
         def fail(sig, detail):
             ctx.violation(sig, case, f"[{rk}/{sc}] {detail}; sender={vars(S)} receiver={vars(R)} written={self.written}")
 
+        if self.stall is not None and self.stall["kind"] == "spurious-rcl":
+            fail("readconnectionlost-without-peer-close",
+                 f"{self.stall['role']}: readConnectionLost although its peer has not called loseConnection / "
+                 "loseWriteConnection / abortConnection and is still connected")
+        if self.stall is not None and self.stall["kind"] == "close-limbo":
+            fail("close-requested-but-transport-idle",
+                 f"{self.stall['role']} called loseConnection, has not had connectionLost, and its transport is registered "
+                 "with the reactor neither for reading nor for writing: the close can never complete")
         if self.stall is not None:
             fail("stalled-with-undelivered-bytes-and-no-writer",
                  f"the {self.stall['writer']} wrote {self.stall['written']} bytes, its peer has received {self.stall['received']}; "
@@ -504,6 +573,24 @@ class _H:
                 ctx.count("duplex half-close with both streams complete")
                 if min(self.written, self.reply_written) > 200000:
                     ctx.count("duplex half-close with both streams > 200 kB")
+        elif sc == "sender-half-lose":
+            # an orderly close, whichever of the two requests wins
+            if R.got != self.written or not self.schedule_done:
+                fail("orderly-close-truncated", f"receiver got {R.got} of {self.written} bytes (loseWriteConnection then loseConnection)")
+            if S.lost[0] is not done or R.lost[0] is not done:
+                fail("orderly-close-not-connectiondone", f"reasons sender={S.lost[0].__name__} receiver={R.lost[0].__name__}")
+            if S.wcl > 1 or R.rcl > 1:
+                fail("halfclose-notification-count", f"sender writeConnectionLost x{S.wcl}, receiver readConnectionLost x{R.rcl}")
+            ctx.count("half-close then close: " + ("same turn" if case["abort_delay"] < 0 else "close delayed"))
+        elif sc == "receiver-echo-lose":
+            if R.lost[0] is not done:
+                fail("closer-reason", f"closing side got {R.lost[0].__name__}")
+            if R.rcl:
+                fail("readconnectionlost-without-peer-close", f"receiver readConnectionLost x{R.rcl}; the sender never closed first")
+            if R.got < min(case["early"], self.total):
+                fail("closed-before-threshold", f"receiver closed at {R.got} bytes")
+            if self.lose_with_output_pending:
+                ctx.count("loseConnection inside dataReceived with earlier output not yet received by the peer")
         elif sc == "sender-abort":
             if S.lost[0] is not error.ConnectionAborted:
                 fail("abort-reason", f"aborting side got {S.lost[0].__name__}")
@@ -536,7 +623,7 @@ class _H:
             ctx.count(f"nontrivial reactor={rk}")
             if self.written > 100000:
                 ctx.sample(case)
-        if sc in ("sender-abort", "receiver-lose-early", "receiver-abort-early") and R.got < self.written:
+        if sc in ("sender-abort", "receiver-lose-early", "receiver-abort-early", "receiver-echo-lose") and R.got < self.written:
             ctx.count("receiver got a proper prefix")
         ctx.extra["bytes_transferred"] = ctx.extra.get("bytes_transferred", 0) + R.got + S.got
 
@@ -566,7 +653,7 @@ def run_case(ctx, case):
 def _case(**kw):
     d = dict(reactor="select", sender_is_client=True, sndbuf=4096, rcvbuf=65536, nodelay=False,
              steps=[], scenario="sender-lose", abort_delay=-1, early=1, rx_pause=None,
-             reply=[10], tx_half_iface=True, rx_half_iface=True, linger=0)
+             reply=[10], tx_half_iface=True, rx_half_iface=True, linger=0, echo=3)
     d.update(kw)
     return d
 
@@ -619,6 +706,7 @@ def _strategy(rk, max_exp):
         reply=st.lists(st.one_of(st.integers(0, 20000), size), max_size=3),
         tx_half_iface=st.booleans(), rx_half_iface=st.booleans(),
         linger=st.sampled_from([0, 0, 2]),
+        echo=st.sampled_from([1, 3, 100, 5000]),
     )
 
 
